@@ -243,7 +243,7 @@ fn arg_alphabet(types: &[String]) -> Vec<A> {
 /// The small type set used for pairs.
 fn small_types(u: &Universe, tier: Tier) -> Vec<String> {
     let want: &[&str] = match tier {
-        Tier::Quick => &["felt252", "u8", "Struct<ut@Tuple>", "Enum<ut@Never>", "Array<felt252>", "BoundedInt<0, 0>", "Const<felt252, 1>", "CircuitInput<0>"],
+        Tier::Quick => &["felt252", "u8", "u128", "Struct<ut@Tuple>", "Enum<ut@Never>", "Array<felt252>", "BoundedInt<0, 0>", "Const<felt252, 1>", "CircuitInput<0>"],
         Tier::Thorough => &[
             "felt252", "u8", "u128", "i8", "RangeCheck", "Struct<ut@Tuple>", "Struct<ut@Empty>", "Enum<ut@Never>", "Enum<ut@Opt, felt252, Struct<ut@Tuple>>",
             "Struct<ut@Pair, felt252, u8>", "Array<felt252>", "Box<felt252>", "NonZero<felt252>", "BoundedInt<0, 0>", "BoundedInt<-1, 1>", "BoundedInt<0, 255>",
